@@ -12,3 +12,4 @@ open PdModel.Tso PdModel.Spec
 #print axioms client_batch_exact
 #print axioms tsLessEqual_iff
 #print axioms C01.composeBV_eq
+#print axioms getTSLoop_succ
